@@ -80,6 +80,7 @@ PROPS = {
         tests=[
             dict(name="TestOverlap", quick=400, thorough=20000, shards_thorough=8, race=True, shrinktime="5s"),
             dict(name="TestOrder", quick=3000, thorough=150000, shards_thorough=8, shrinktime="5s"),
+            dict(name="TestBurst", quick=120, thorough=6000, shards_thorough=4, shrinktime="5s"),
         ],
     ),
     "C10": dict(
